@@ -196,4 +196,126 @@ theorem C17_extra_blank_line_source_recipe_modes_off_realEnv {α : Type} [Arith 
     ResSim (realEnv rext rconv).cs.uws (parseRecipe (α := α) (realEnv rext rconv) (u ++ (e0 ++ (e ++ x)))) (parseRecipe (α := α) (realEnv rext rconv) (u ++ (e0 ++ x))) :=
   C17_extra_blank_line_source_recipe_modes_off_real (realEnv rext rconv) rfl hm u e0 e x L hlu hL hE0 hE h1 h2
 
+-- ===== w6c17docwf: C17 under the canonical parser and under the extended parser =====
+/-! The quantifier of C17 "under the canonical parser and the extended parser".  The canonical parser is
+    `Extensions::empty()` without units = `realEnv 0 0`; the extended parser is `Extensions::all()` (bits 3818:
+    every extension, MODES and INLINE_QUANTITIES included) with `Converter::bundled()` = `realEnv 3818 1`.
+    Both read the generated character table, so every `C17_*_real` theorem applies with `hreal := rfl`.
+    Under the canonical parser MODES is off and no proviso is left; under the extended parser MODES is on and the
+    decidable exclusion `TextSwitchFree` (no `>>` entry `[mode]: text` / `[define]: text` among the events) is the
+    only hypothesis besides those of the edit. -/
+
+/-- the two parsers of the property: the extension bits that matter to C17 -/
+theorem C17_two_parsers_bits :
+    (realEnv 0 0).ext.has Gen.EXT_MODES = false ∧ (realEnv 0 0).ext.has Gen.EXT_INLINE_QUANTITIES = false ∧
+    (realEnv 3818 1).ext.has Gen.EXT_MODES = true ∧ (realEnv 3818 1).ext.has Gen.EXT_INLINE_QUANTITIES = true ∧
+    (realEnv 3818 1).ext.has Gen.EXT_ADVANCED_UNITS = true ∧ (realEnv 0 0).cs = realCharSpec ∧
+    (realEnv 3818 1).cs = realCharSpec := by
+  refine ⟨by decide, by decide, by decide, by decide, by decide, rfl, rfl⟩
+
+/-- CRLF conversion, canonical parser: every backslash-free input, no proviso -/
+theorem C17_crlf_same_recipe_canonical {α : Type} [Arith α] (ws : Char → Bool) (s : List Char) (hs : CrlfSafe s) :
+    SameRecipe ws (parseRecipe (α := α) (realEnv 0 0) (crlf s)) (parseRecipe (α := α) (realEnv 0 0) s) :=
+  C17_crlf_same_recipe_modes_off_real ws (realEnv 0 0) rfl (by decide) s hs
+
+/-- CRLF conversion, extended parser: every backslash-free input whose events contain no switch to define mode `text` -/
+theorem C17_crlf_same_recipe_extended {α : Type} [Arith α] (ws : Char → Bool) (s : List Char) (hs : CrlfSafe s)
+    (hfree : TextSwitchFree realCharSpec (pullEvents (α := α) realCharSpec ⟨3818⟩ s).1.toList = true) :
+    SameRecipe ws (parseRecipe (α := α) (realEnv 3818 1) (crlf s)) (parseRecipe (α := α) (realEnv 3818 1) s) :=
+  C17_crlf_same_recipe_real ws (realEnv 3818 1) rfl s hs hfree
+
+/-- CRLF conversion, any extension set and either converter -/
+theorem C17_crlf_same_recipe_realEnv {α : Type} [Arith α] (ws : Char → Bool) (rext rconv : Nat) (s : List Char) (hs : CrlfSafe s)
+    (hfree : TextSwitchFree realCharSpec (pullEvents (α := α) realCharSpec ⟨rext⟩ s).1.toList = true) :
+    SameRecipe ws (parseRecipe (α := α) (realEnv rext rconv) (crlf s)) (parseRecipe (α := α) (realEnv rext rconv) s) :=
+  C17_crlf_same_recipe_real ws (realEnv rext rconv) rfl s hs hfree
+
+/-- extra blank / comment-only line (no front matter), any extension set and either converter; for the canonical
+    parser `hfree` can be dropped (`C17_extra_blank_line_source_recipe_modes_off_realEnv`) -/
+theorem C17_extra_blank_line_source_same_recipe_realEnv {α : Type} [Arith α] (ws : Char → Bool) (rext rconv : Nat)
+    (u e0 e x : List Char) (L : List (List Tok)) (hlu : lex realCharSpec u = L.flatten) (hL : ∀ l ∈ L, IsLine l)
+    (hE0 : EmptyLine (lexFrom realCharSpec (utf8Len u) e0)) (hE : EmptyLine (lexFrom realCharSpec (utf8Len u + utf8Len e0) e))
+    (h1 : parseFrontmatter realCharSpec (u ++ (e0 ++ (e ++ x))) = none) (h2 : parseFrontmatter realCharSpec (u ++ (e0 ++ x)) = none)
+    (hfree : TextSwitchFree realCharSpec (pullEvents (α := α) realCharSpec ⟨rext⟩ (u ++ (e0 ++ x))).1.toList = true) :
+    SameRecipe ws (parseRecipe (α := α) (realEnv rext rconv) (u ++ (e0 ++ (e ++ x))))
+      (parseRecipe (α := α) (realEnv rext rconv) (u ++ (e0 ++ x))) :=
+  C17_extra_blank_line_source_same_recipe_real ws (realEnv rext rconv) rfl u e0 e x L hlu hL hE0 hE h1 h2 hfree
+
+/-- extra blank / comment-only line, canonical parser: no proviso -/
+theorem C17_extra_blank_line_source_same_recipe_canonical {α : Type} [Arith α] (ws : Char → Bool)
+    (u e0 e x : List Char) (L : List (List Tok)) (hlu : lex realCharSpec u = L.flatten) (hL : ∀ l ∈ L, IsLine l)
+    (hE0 : EmptyLine (lexFrom realCharSpec (utf8Len u) e0)) (hE : EmptyLine (lexFrom realCharSpec (utf8Len u + utf8Len e0) e))
+    (h1 : parseFrontmatter realCharSpec (u ++ (e0 ++ (e ++ x))) = none) (h2 : parseFrontmatter realCharSpec (u ++ (e0 ++ x)) = none) :
+    SameRecipe ws (parseRecipe (α := α) (realEnv 0 0) (u ++ (e0 ++ (e ++ x)))) (parseRecipe (α := α) (realEnv 0 0) (u ++ (e0 ++ x))) :=
+  C17_strict_implies_same_recipe _ ws _ _
+    (C17_extra_blank_line_source_recipe_modes_off_real (realEnv 0 0) rfl (by decide) u e0 e x L hlu hL hE0 hE h1 h2)
+
+/-- blank line in front of the front matter / blank or comment-only line behind it, any extension set, either converter -/
+theorem C17_blank_line_before_frontmatter_same_recipe_realEnv {α : Type} [Arith α] (ws : Char → Bool) (rext rconv : Nat)
+    (e : List Char) (B Y : List (List Char)) (f1 f2 X : List Char)
+    (he : StrLine e ∧ (trim realCharSpec.uws e).isEmpty = true)
+    (hB : ∀ l ∈ B, StrLine l ∧ (trim realCharSpec.uws l).isEmpty = true)
+    (hf1 : StrLine f1 ∧ isFence realCharSpec f1 = true) (hY : ∀ l ∈ Y, StrLine l ∧ isFence realCharSpec l = false)
+    (hf2 : StrLine f2 ∧ isFence realCharSpec f2 = true)
+    (hfree : TextSwitchFree realCharSpec
+      (pullEvents (α := α) realCharSpec ⟨rext⟩ (B.flatten ++ (f1 ++ (Y.flatten ++ (f2 ++ X))))).1.toList = true) :
+    SameRecipe ws (parseRecipe (α := α) (realEnv rext rconv) (e ++ (B.flatten ++ (f1 ++ (Y.flatten ++ (f2 ++ X))))))
+      (parseRecipe (α := α) (realEnv rext rconv) (B.flatten ++ (f1 ++ (Y.flatten ++ (f2 ++ X))))) :=
+  C17_blank_line_before_frontmatter_same_recipe_real ws (realEnv rext rconv) rfl e B Y f1 f2 X he hB hf1 hY hf2 hfree
+
+theorem C17_line_after_frontmatter_same_recipe_realEnv {α : Type} [Arith α] (ws : Char → Bool) (rext rconv : Nat)
+    (e : List Char) (B Y : List (List Char)) (f1 f2 X : List Char)
+    (hB : ∀ l ∈ B, StrLine l ∧ (trim realCharSpec.uws l).isEmpty = true)
+    (hf1 : StrLine f1 ∧ isFence realCharSpec f1 = true) (hY : ∀ l ∈ Y, StrLine l ∧ isFence realCharSpec l = false)
+    (hf2 : StrLine f2 ∧ isFence realCharSpec f2 = true)
+    (hE : EmptyLine (lexFrom realCharSpec (utf8Len B.flatten + utf8Len f1 + utf8Len Y.flatten + utf8Len f2) e))
+    (hfree : TextSwitchFree realCharSpec
+      (pullEvents (α := α) realCharSpec ⟨rext⟩ (B.flatten ++ (f1 ++ (Y.flatten ++ (f2 ++ X))))).1.toList = true) :
+    SameRecipe ws (parseRecipe (α := α) (realEnv rext rconv) (B.flatten ++ (f1 ++ (Y.flatten ++ (f2 ++ (e ++ X))))))
+      (parseRecipe (α := α) (realEnv rext rconv) (B.flatten ++ (f1 ++ (Y.flatten ++ (f2 ++ X))))) :=
+  C17_line_after_frontmatter_same_recipe_real ws (realEnv rext rconv) rfl e B Y f1 f2 X hB hf1 hY hf2 hE hfree
+
+/-- trailing comment / trailing blanks / block comment between words of step text or of a paragraph, well-formed
+    recipes, any extension set and either converter (the theorem has no table side condition) -/
+theorem C17_insertion_same_recipe_realEnv {α : Type} [Arith α] (rext rconv : Nat) (ws : Char → Bool)
+    (pre' pre : List Tok) (doc' doc : List (DocItem × List Tok))
+    (h' : DocWF α (realEnv rext rconv) pre' doc') (h : DocWF α (realEnv rext rconv) pre doc)
+    (hins : LRel (ItemIns ws) (doc'.map (·.1)) (doc.map (·.1))) :
+    SameRecipe ws (parseRecipe (α := α) (realEnv rext rconv) (render (pre' ++ docSpec doc')))
+      (parseRecipe (α := α) (realEnv rext rconv) (render (pre ++ docSpec doc))) :=
+  C17_insertion_same_recipe (realEnv rext rconv) ws pre' pre doc' doc h' h hins
+
+/-- filler inside component bodies / trailing comment on `=` and `>>` lines, well-formed recipes, any extension set
+    and either converter: `uws ' '` discharged -/
+theorem C17_filler_in_component_bodies_same_recipe_realEnv {α : Type} [Arith α] (ws : Char → Bool) (rext rconv : Nat)
+    (pre' pre : List Tok) (docF : List (DocItemF × List Tok))
+    (doc : List (DocItem × List Tok)) (h : DocWF α (realEnv rext rconv) pre doc)
+    (hclean : ((docCleanF docF).map (·.1)).map DocItem.core = (doc.map (·.1)).map DocItem.core)
+    (hpre' : blankLinesOK pre' = true) (hok : ∀ d ∈ docF, d.1.OK realCharSpec ⟨rext⟩)
+    (hseps : sepsOK (docF.map (·.2)) = true) (hw : WellSpelled realCharSpec (pre' ++ docSpecF docF))
+    (hfm : parseFrontmatter realCharSpec (render (pre' ++ docSpecF docF)) = none) :
+    SameRecipe ws (parseRecipe (α := α) (realEnv rext rconv) (render (pre' ++ docSpecF docF)))
+      (parseRecipe (α := α) (realEnv rext rconv) (render (pre ++ docSpec doc))) :=
+  C17_filler_in_component_bodies_same_recipe_real ws (realEnv rext rconv) rfl pre' pre docF doc h hclean hpre' hok hseps hw hfm
+
+/-- trailing comment / trailing blanks / block comment between words of step text under the CANONICAL parser, from the
+    well-formedness of the original alone (INLINE_QUANTITIES is off there; spelling and "no fence" of the transformed
+    text remain hypotheses, `C17_insertion_in_text_wellformed_partial`) -/
+theorem C17_insertion_in_text_same_recipe_canonical_partial {α : Type} [Arith α] (ws : Char → Bool) (pre : List Tok)
+    (D1 D2 : List (DocItem × List Tok)) (sep : List Tok) (S1 S2 : List SegX) (l1 F l2 : List Tok) (hF : IsFiller F)
+    (hvis : ∀ c ∈ F.flatMap vis, ws c = true) (hadj : BlankAdj ws (l1.flatMap vis) (l2.flatMap vis))
+    (hS2 : ∀ s, S2.head? = some s → s.isText = false)
+    (h : DocWF α (realEnv 0 0) pre (D1 ++ (DocItem.step (S1 ++ SegX.text (l1 ++ l2) :: S2), sep) :: D2))
+    (hw : WellSpelled realCharSpec (pre ++ docSpec (D1 ++ (DocItem.step (S1 ++ SegX.text (l1 ++ F ++ l2) :: S2), sep) :: D2)))
+    (hfm : parseFrontmatter realCharSpec
+      (render (pre ++ docSpec (D1 ++ (DocItem.step (S1 ++ SegX.text (l1 ++ F ++ l2) :: S2), sep) :: D2))) = none) :
+    SameRecipe ws
+      (parseRecipe (α := α) (realEnv 0 0)
+        (render (pre ++ docSpec (D1 ++ (DocItem.step (S1 ++ SegX.text (l1 ++ F ++ l2) :: S2), sep) :: D2))))
+      (parseRecipe (α := α) (realEnv 0 0)
+        (render (pre ++ docSpec (D1 ++ (DocItem.step (S1 ++ SegX.text (l1 ++ l2) :: S2), sep) :: D2)))) :=
+  C17_insertion_in_text_same_recipe_inline_off_partial (realEnv 0 0) ws (by decide) pre D1 D2 sep S1 S2 l1 F l2 hF hvis hadj
+    hS2 h hw hfm
+-- ===== end w6c17docwf =====
+
 end Cook
